@@ -3,6 +3,9 @@ Driver op of the concrete instance model (`MdVerif/Model/InstanceX.lean`):
 
 `instx.run <flags> <tab> <html|xhtml> <ev>…` → `<outcome>|<outcome>…#<state>`
 
+`instx.runm <on> <flags> <tab> <html|xhtml> <ev>…` → the same with the `meta` extension when `<on>` = `1`; the state has
+one more field, `#<meta>` (`md.Meta`, encoded as by `convertm`).
+
 `<flags>` as `convertx`.  `<ev>`: `R` = `md.reset()`, `C<str>` = `md.convert(str)`.  One `<outcome>` per conversion:
 `K<str>` (ok), `F` (out of fuel), `E` (raises), `D` (outside the modelled domain).  `<state>` is the state after the
 history: `X` when it is not modelled (`valid = false`), otherwise
@@ -14,6 +17,7 @@ history: `X` when it is not modelled (`valid = false`), otherwise
 -/
 import MdVerif.Model.InstanceX
 import Driver.PipelineXOps
+import Driver.MetaOps
 
 namespace Driver
 open MdVerif
@@ -49,6 +53,13 @@ def instanceXHandler : Handler := fun op args =>
     let h := evs.map decEvX
     some ("|".intercalate ((InstanceX.outcomes x cfg InstanceX.fresh h).map encOutcomeX) ++ "#" ++
           encStateX (InstanceX.runS x cfg InstanceX.fresh h))
+  | "instx.runm", on :: flags :: tab :: fmt :: evs =>
+    let cfg : Pipeline.Cfg := { tab := decNat tab, fmt := if fmt == "html" then .html else .xhtml }
+    let x := decExts flags
+    let h := evs.map decEvX
+    let st := InstanceX.runSM (decBool on) x cfg InstanceX.fresh h
+    some ("|".intercalate ((InstanceX.outcomesM (decBool on) x cfg InstanceX.fresh h).map encOutcomeX) ++ "#" ++
+          encStateX st ++ (if st.valid then "#" ++ encMetaDict st.metaData else ""))
   | _, _ => none
 
 end Driver
